@@ -5,6 +5,7 @@ import (
 	"bytes"
 	"encoding/json"
 	"fmt"
+	"io"
 	"math/rand"
 	"os"
 	"os/exec"
@@ -113,6 +114,29 @@ func runModel(modelBin string, reqs []string) ([]string, error) {
 var hangTimeout = 5 * time.Minute // CPU time of the whole worker process (collector threads included)
 var blockedTimeout = 6 * time.Minute
 var absoluteTimeout = 40 * time.Minute
+
+// readTail: the last n bytes of a file
+func readTail(path string, n int64) ([]byte, error) {
+	f, err := os.Open(path)
+	if err != nil {
+		return nil, err
+	}
+	defer f.Close()
+	st, err := f.Stat()
+	if err != nil {
+		return nil, err
+	}
+	off := st.Size() - n
+	if off < 0 {
+		off = 0
+	}
+	b := make([]byte, st.Size()-off)
+	_, err = f.ReadAt(b, off)
+	if err != nil && err != io.EOF {
+		return nil, err
+	}
+	return b, nil
+}
 
 // procCPU: user+system time consumed so far by process pid (Linux /proc), ok=false if unknown
 func procCPU(pid int) (time.Duration, bool) {
@@ -271,8 +295,18 @@ func generateIsolated(s *Stream, seed int64, n int, thorough bool) ([]Case, int,
 						cpuAtChange = cpu
 					}
 					// an item that burns CPU this long without finishing, or is blocked, is a hang
-					busy := cpuOK && cpu-cpuAtChange > hangTimeout
-					blocked := time.Since(lastChange) > blockedTimeout && (!cpuOK || cpu-cpuAtChange < 10*time.Second)
+					// only an item that has announced itself and not finished can hang; between
+					// items the worker generates inputs (no progress lines, possibly for long)
+					inItem := false
+					if b, e := readTail(progress, 2048); e == nil {
+						t := strings.TrimRight(string(b), "\n")
+						if i := strings.LastIndexByte(t, '\n'); i >= 0 {
+							t = t[i+1:]
+						}
+						inItem = strings.HasPrefix(t, "BEGIN\t")
+					}
+					busy := inItem && cpuOK && cpu-cpuAtChange > hangTimeout
+					blocked := inItem && time.Since(lastChange) > blockedTimeout && (!cpuOK || cpu-cpuAtChange < 10*time.Second)
 					if busy || blocked || time.Since(lastChange) > absoluteTimeout {
 						hung = true
 						cmd.Process.Kill()
